@@ -34,6 +34,19 @@
   (`generalize`), the error flags are discharged one fact at a time, the loop of `_compute_grads` is read semantically
   (`foldl_updates_true`: each round appends `-cut_grad` and raises nothing).  harmless/batch3/h07.diff (explicit loop in `_infer`,
   `np.matmul` / `np.sum` / `np.flip`, `range(n)` loop, extra temporaries) regenerates to definitions these same proofs accept.
+  SPELLINGS.  Three expressions of the source have behaviour-preserving respellings that regenerate to DIFFERENT operations of
+  the array language (harmless/h07.diff, harmless/batch2/h07.diff); the proofs below establish the facts for every spelling and
+  use whichever the current text needs, so each theorem holds for whichever source is current:
+    * the weights `W`: `np.linspace(1, n + 1, n + 1)` or `np.arange(1, n + 2, dtype=np.float64)` (`isWeights_linspace`,
+      `isWeights_arangeFrom` of Lemmas/C15Gen.lean: both are the row `1, …, n + 1`);
+    * the row-wise outer product: `np.einsum("ij,ik->ijk", a, b)` or `a[:, :, np.newaxis] * b[:, np.newaxis, :]` (NumPy
+      broadcasting, `Arr3.mul (expandLast a) (expandMid b)`), reshaped by `np.prod(T.shape[1:])` or `a.shape[1] * b.shape[1]`;
+    * undoing the sort: the gather `cumsum_grad[np.argsort(order)]`, the scatter `g = np.empty_like(cumsum_grad); g[order] =
+      cumsum_grad`, or the gather through `ranks = np.empty_like(order); ranks[order] = np.arange(len(order))`.  The entries
+      of `np.empty_like` are an OPAQUE constant; the scatter equals the gather because the retained order is a permutation of ALL
+      positions (`argsortBy_perm`), so every entry is overwritten exactly once (`setAt_get_of_perm`, `argsortNat_inv` of
+      Lemmas/C15GenGrad.lean) — proved, not assumed.  A scatter through anything else (e.g. `g[np.argsort(order)] = …`) matches none
+      of the three and `compute_grads_closed_form` fails.
   The theorems of Props/C15.lean, C03Douglas.lean and the Douglas part of C18.lean, stated about Model/Douglas.lean, therefore
   speak about the current source.
 -/
@@ -46,6 +59,9 @@ open GemVerif GemVerif.RealLike GemVerif.Np GemVerif.Np.Arr GemVerif.Model.Dougl
 
 set_option linter.unusedVariables false
 set_option linter.unusedSimpArgs false
+-- the proofs serve several spellings of the source: the alternatives the current text does not use are never run
+set_option linter.unusedTactic false
+set_option linter.unreachableTactic false
 
 /-! ### what the relations mean -/
 
@@ -68,7 +84,7 @@ theorem raised_not_isRows {n len : ℕ} (A : Arr ℝ) (rows : Fin n → List ℝ
 
 /-! ### `_leaf_binning` -/
 
-/-- `Douglas._leaf_binning(X, cut_points)` as written in the source (`np.linspace` weights, `np.argsort`, the sorted cut points by
+/-- `Douglas._leaf_binning(X, cut_points)` as written in the source (weights `1, …, n + 1` by `np.linspace` or `np.arange`, `np.argsort`, the sorted cut points by
     fancy indexing, the bias by `np.concatenate` / `np.cumsum` / reshape, `softmax((X @ W + b) / self.temperature)`), applied to any
     array that is without error the `(n, 1)` column `x` and any 1-D array holding the list `cuts`: the memberships are without
     error the `(n, len(cuts) + 1)` array whose row `i` is the model's `binning T (x i) cuts`, and the returned order is the 1-D
@@ -84,22 +100,29 @@ theorem leaf_binning_isRows (T : ℝ) {n : ℕ} {Xa ca : Arr ℝ} {x : Fin n →
   have hS := hc.take1_argsort hO
   have hB := hS.bias
   rw [hc.2.2.1]
-  have hrows := fun (i : Fin n) (j : ℕ) (hj : j < cuts.length + 1) => softmax_logits_get T hX hB i hj
-  generalize argsort1 ca = order at hO hS hB hrows ⊢
-  generalize reshapeRow (cumsumAxis1 (concat1 (zeros 1 1) (neg (take1 ca order)))) = ba at hB hrows ⊢
+  -- the row `W` of the weights `1, …, n + 1`, spelled `np.linspace(1, n + 1, n + 1)` or `np.arange(1, n + 2)`
+  have hWl := isWeights_linspace cuts.length
+  have hWa := isWeights_arangeFrom cuts.length
+  have hrows := fun (i : Fin n) (j : ℕ) (hj : j < cuts.length + 1) => softmax_logits_get_of_weights T hWl hX hB i hj
+  have hrowsA := fun (i : Fin n) (j : ℕ) (hj : j < cuts.length + 1) => softmax_logits_get_of_weights T hWa hX hB i hj
+  generalize argsort1 ca = order at hO hS hB hrows hrowsA ⊢
+  generalize reshapeRow (cumsumAxis1 (concat1 (zeros 1 1) (neg (take1 ca order)))) = ba at hB hrows hrowsA ⊢
+  generalize reshapeRow (linspace (1 : ℝ) (nat cuts.length + 1) (cuts.length + 1)) = Wl at hWl hrows ⊢
+  generalize reshapeRow (arangeFrom 1 (cuts.length + 2) : Arr ℝ) = Wa at hWa hrowsA ⊢
   obtain ⟨hXok, hXr, hXc, hXget⟩ := hX
   obtain ⟨hbok, hbr, hbc, hbget⟩ := hB
   rw [bias_length] at hbc
+  obtain ⟨hWlok, hWlr, hWlc, -⟩ := hWl
+  obtain ⟨hWaok, hWar, hWac, -⟩ := hWa
   -- the flags: every array bound on the way is without error, whatever temporaries name them
-  have hW : (reshapeRow (linspace (1 : ℝ) (nat cuts.length + 1) (cuts.length + 1))).ok = true := by simp
-  have hlog : (add (matmul Xa (reshapeRow (linspace 1 (nat cuts.length + 1) (cuts.length + 1)))) ba).ok = true := by
-    simp [add, hbok, hXok, hXc, hXr, hbr, hbc]
-  simp only [hW, hO.1, hS.1, hbok, hlog, linspace_ok, Bool.and_self]
+  have hlogl : (add (matmul Xa Wl) ba).ok = true := by simp [add, hbok, hXok, hXc, hXr, hbr, hbc, hWlok, hWlr, hWlc]
+  have hlogA : (add (matmul Xa Wa) ba).ok = true := by simp [add, hbok, hXok, hXc, hXr, hbr, hbc, hWaok, hWar, hWac]
+  simp only [hWlok, hWaok, hO.1, hS.1, hbok, hlogl, hlogA, Bool.and_self]
   refine ⟨⟨?_, ?_, ?_, fun i => binning_length T (x i) cuts, fun i j hj => ?_⟩, ?_, ?_, ?_, ?_⟩
-  · simp [add, hbok, hXok, hXc, hXr, hbr, hbc]
+  · simp [add, hbok, hXok, hXc, hXr, hbr, hbc, hWlok, hWlr, hWlc, hWaok, hWar, hWac]
   · simp [add, hXr, hbr]
-  · simp [add, hbc]
-  · exact hrows i j hj
+  · simp [add, hbc, hWlc, hWac]
+  · first | exact hrows i j hj | exact hrowsA i j hj
   · simp [hO.1]
   · exact hO.2.1
   · exact hO.2.2.1
@@ -136,10 +159,14 @@ theorem leaf_binning_order_generic {α : Type} [RealLike α] (T : α) {n : ℕ} 
   obtain ⟨hXok, hXr, hXc, hXget⟩ := hX
   obtain ⟨hbok, hbr, hbc, hbget⟩ := hB
   rw [bias_length_g] at hbc
-  have hW : (reshapeRow (linspace (1 : α) (nat cuts.length + 1) (cuts.length + 1))).ok = true := by simp
-  have hlog : (add (matmul Xa (reshapeRow (linspace 1 (nat cuts.length + 1) (cuts.length + 1)))) ba).ok = true := by
+  -- the row of the weights in either spelling: no error, shape `(1, n + 1)`
+  have hWl : (reshapeRow (linspace (1 : α) (nat cuts.length + 1) (cuts.length + 1))).ok = true := by simp
+  have hWa : (reshapeRow (arangeFrom 1 (cuts.length + 2) : Arr α)).ok = true := by simp
+  have hlogl : (add (matmul Xa (reshapeRow (linspace 1 (nat cuts.length + 1) (cuts.length + 1)))) ba).ok = true := by
     simp [add, hbok, hXok, hXc, hXr, hbr, hbc]
-  simp only [hW, hO.1, hS.1, hbok, hlog, linspace_ok, Bool.and_self]
+  have hlogA : (add (matmul Xa (reshapeRow (arangeFrom 1 (cuts.length + 2) : Arr α))) ba).ok = true := by
+    simp [add, hbok, hXok, hXc, hXr, hbr, hbc]
+  simp only [hWl, hWa, hO.1, hS.1, hbok, hlogl, hlogA, linspace_ok, arangeFrom_ok, Bool.and_self]
   exact ⟨by simp [hO.1], hO.2.1, hO.2.2.1, hO.2.2.2⟩
 
 /-- instance at `Float`: on IEEE doubles the order returned by the source's `_leaf_binning` is the model's `argsort` -/
@@ -154,7 +181,8 @@ example (x : Fin 3 → ℝ) (cuts : List ℝ) :
 
 /-! ### `_merge_leaf` -/
 
-/-- `Douglas._merge_leaf(a, b)` as written in the source (`np.einsum("ij,ik->ijk", a, b)` reshaped to `(-1, J·K)`), applied to two
+/-- `Douglas._merge_leaf(a, b)` as written in the source (`np.einsum("ij,ik->ijk", a, b)`, or the same product by broadcasting
+    `a[:, :, np.newaxis] * b[:, np.newaxis, :]`, reshaped to `(-1, J·K)`), applied to two
     arrays given row by row (rows of `la` resp. `lb` entries, `la · lb ≠ 0`): without error the `(n, la · lb)` array whose row `i`
     is the model's `kron` of the two rows (entry `j · lb + k` is `a[i, j] · b[i, k]`). -/
 theorem merge_leaf_isRows {n la lb : ℕ} {A B : Arr ℝ} {ra rb : Fin n → List ℝ} (hA : IsRows A ra la) (hB : IsRows B rb lb)
@@ -163,21 +191,24 @@ theorem merge_leaf_isRows {n la lb : ℕ} {A B : Arr ℝ} {ra rb : Fin n → Lis
   obtain ⟨hBok, hBr, hBc, hBlen, hBget⟩ := hB
   unfold Gen.Douglas.merge_leaf
   dsimp only
+  -- the 3-d product is spelled `np.einsum("ij,ik->ijk", a, b)` or, by broadcasting, `a[:, :, np.newaxis] * b[:, np.newaxis, :]`
   refine ⟨?_, ?_, ?_, fun i => by rw [kron_length, hAlen, hBlen], fun i p hp => ?_⟩
-  · simp [hAok, hBok, hAr, hBr, hAc, hBc, h0]
-  · simp [hAr, hBr]
-  · simp [hAc, hBc]
+  · simp [Arr3.mul, hAok, hBok, hAr, hBr, hAc, hBc, h0]
+  · simp [Arr3.mul, hAr, hBr]
+  · simp [Arr3.mul, hAc, hBc]
   · have hlb : 0 < lb := Nat.pos_of_ne_zero fun h => h0 (by rw [h, Nat.mul_zero])
     have h1 : p / lb < la := Nat.div_lt_of_lt_mul (by rwa [Nat.mul_comm])
     have h2 : p % lb < lb := Nat.mod_lt _ hlb
-    simp only [checked_get, Arr3.flattenTail_get, Arr3.einsumIjIk_get, Arr3.einsumIjIk_d2, hAr, hBr, hBc, bidx_val]
+    simp only [checked_get, Arr3.flattenTail_get, Arr3.einsumIjIk_get, Arr3.einsumIjIk_d2, Arr3.mul, Arr3.zipWith_get,
+      Arr3.zipWith_d2, Arr3.expandLast_get, Arr3.expandMid_get, Arr3.expandLast_d0, Arr3.expandMid_d0, Arr3.expandLast_d1,
+      Arr3.expandMid_d2, Arr3.expandLast_d2, bdim_one_left, hAr, hBr, hAc, hBc, bidx_val, bidx_of_lt h1, bidx_of_lt h2]
     rw [hAget i _ h1, hBget i _ h2, kron_getD_divmod _ _ (by rw [hAlen, hBlen]; exact hp), hBlen]
 
 /-- An empty second factor (`lb = 0`): NumPy cannot infer the `-1` of the reshape and raises; the generated `_merge_leaf` carries
     an error (the model's `kron` would be the empty list: such binnings never occur, a binning has `len(cuts) + 1 ≥ 1` entries). -/
 theorem merge_leaf_empty_raises {n la : ℕ} {A B : Arr ℝ} {ra rb : Fin n → List ℝ} (hA : IsRows A ra la) (hB : IsRows B rb 0) :
     (Gen.Douglas.merge_leaf A B).ok = false := by
-  simp [Gen.Douglas.merge_leaf, hB.2.2.1]
+  simp [Gen.Douglas.merge_leaf, Arr3.mul, hB.2.2.1]
 
 /-! ### `_infer` and what it retains -/
 
@@ -262,9 +293,9 @@ theorem infer_out_of_range_raises (T : ℝ) {n d : ℕ} {Xa SA : Arr ℝ} {X : F
     {clA : List (ℕ × Arr ℝ)} {cl : List (ℕ × List ℝ)} (hcl : CplIs clA cl) (hbad : ∃ z ∈ cl, d ≤ z.1) :
     (Gen.Douglas.infer clA SA T Xa).ok = false := by
   have hmerge_l : ∀ A B : Arr ℝ, A.ok = false → (Gen.Douglas.merge_leaf A B).ok = false := fun A B h => by
-    simp [Gen.Douglas.merge_leaf, h]
+    simp [Gen.Douglas.merge_leaf, Arr3.mul, h]
   have hmerge_r : ∀ A B : Arr ℝ, B.ok = false → (Gen.Douglas.merge_leaf A B).ok = false := fun A B h => by
-    simp [Gen.Douglas.merge_leaf, h]
+    simp [Gen.Douglas.merge_leaf, Arr3.mul, h]
   -- the array of that feature exists in `clA`, with the same index
   obtain ⟨z, hz, hdz⟩ := hbad
   have hmem : ∃ a ∈ clA, d ≤ a.1 := by
@@ -320,7 +351,8 @@ theorem updatesAre_spelled_out (L K : ℕ) (u : Arr ℝ) (us : List (Arr ℝ)) (
 
 /-- `Douglas._compute_grads(X, y_pred, gradient)` as written in the source (soft-max back-propagation, `binning_backprop` and
     `leaf_score_backprop`, the N-d reshape / `*=` / `sum(axes_for_sum)` marginalisation, `bin_grad`, `bias_grad = bin_grad.sum(0)[1:]`,
-    the reversed cumulative sum, the scatter `cumsum_grad[np.argsort(self._all_orders[i])]`, the negations), applied to ANY retained
+    the reversed cumulative sum, the sort undone by `cumsum_grad[np.argsort(self._all_orders[i])]` or by a scatter through
+    `self._all_orders[i]` into `np.empty_like` memory (see SPELLINGS above), the negations), applied to ANY retained
     state that holds the model's leaf memberships, binnings and orders and to arrays holding `cl`, `S`, `y_pred`, `gradient`
     (`X` itself is not read): the returned list is, without error, the model's update list in closed form — first
     `-leaf_score_backprop` (`lsbSpec`, row-major `L × K`), then one `-cut_grad` per entry of `cut_points_list_` (`cutGradSpec`), which
@@ -351,8 +383,13 @@ theorem compute_grads_closed_form {n d L K : ℕ} (T : ℝ) (X : Fin n → Fin d
   generalize Arr.matmul (Arr.transpose leafA) ypg = lsb at hlsb ⊢
   generalize ArrN.reshapeOf bb0 (radices cl) = bb1 at hbb1 hP ⊢
   generalize ArrN.mul bb1 (ArrN.reshapeOf leafA (radices cl)) = P at hP ⊢
-  -- the loop, read semantically: whatever temporaries a round binds, it raises nothing and appends `-cut_grad`
-  rw [foldl_updates_true _ (fun zi => Arr.neg (loopCut P Bs Os T zi.2)) clA.zipIdx _ (fun st zi => rfl)]
+  -- the loop, read semantically: whatever temporaries a round binds, it raises nothing and appends `-cut_grad`, where `cut_grad`
+  -- is `cumsum_grad` with the sort undone in one of three spellings: gathered through `np.argsort(order)` (`loopCut`), scattered
+  -- through `order` into `np.empty_like(cumsum_grad)` (`loopCutS`), gathered through ranks built by scatter (`loopCutR`)
+  first
+    | rw [foldl_updates_true _ (fun zi => Arr.neg (loopCut P Bs Os T zi.2)) clA.zipIdx _ (fun st zi => rfl)]
+    | rw [foldl_updates_true _ (fun zi => Arr.neg (loopCutS P Bs Os T zi.2)) clA.zipIdx _ (fun st zi => rfl)]
+    | rw [foldl_updates_true _ (fun zi => Arr.neg (loopCutR P Bs Os T zi.2)) clA.zipIdx _ (fun st zi => rfl)]
   · dsimp only
     simp only [hypg.1, hbb0.1, hlsb.1, hbb1.1, hP.1, Bool.and_self, List.map_append, List.map_cons, List.map_nil,
       List.singleton_append, List.map_map]
@@ -363,17 +400,25 @@ theorem compute_grads_closed_form {n d L K : ℕ} (T : ℝ) (X : Fin n → Fin d
       refine ⟨by simp [hlen], fun i h1 h2 => ?_⟩
       have hi : i < cl.length := by simpa using h2
       simp only [List.get_eq_getElem, List.getElem_map, List.getElem_zipIdx, Function.comp, Nat.zero_add]
-      exact (loop_round_spec T X cl _ hP hi (hB i hi) (hO i hi)).2.checked_true
+      first
+        | exact (loop_round_spec T X cl _ hP hi (hB i hi) (hO i hi)).2.checked_true
+        | exact (loop_round_spec_scatter T X cl _ hP hi (hB i hi) (hO i hi)).2.checked_true
+        | exact (loop_round_spec_ranks T X cl _ hP hi (hB i hi) (hO i hi)).2.checked_true
   · rintro st ⟨a, i⟩ hzi hst
     have hi : i < cl.length := by rw [← hlen]; exact (List.mem_zipIdx' hzi).1
     have hok := (loop_round_spec T X cl _ hP hi (hB i hi) (hO i hi)).1
     simp only [loopOk, loopCut, loopCs, loopBias, loopBg1, loopBg, loopWg, Bool.and_eq_true] at hok
     obtain ⟨⟨⟨⟨⟨h1, h2⟩, h3⟩, h4⟩, h5⟩, h6⟩ := hok
+    -- the arrays only the scatter spellings bind
+    obtain ⟨hS1, hS2⟩ := (loop_round_spec_scatter T X cl _ hP hi (hB i hi) (hO i hi)).1
+    obtain ⟨⟨hR1, hR2⟩, hR3⟩ := (loop_round_spec_ranks T X cl _ hP hi (hB i hi) (hO i hi)).1
+    simp only [loopCutS, loopCutR, loopRanks, loopCs, loopBias, loopBg1, loopBg, loopWg] at hS1 hS2 hR1 hR2 hR3
     have hOi := hO i hi
     have h7 : (nthN Os i).ok = true := hOi.1
     have h8 : (nthN Os i).r = 1 := hOi.2.1
     dsimp only
-    simp only [hst, h1, h2, h3, h4, h5, h6, h7, h8, sumAxis1_ok, argsortN_ok, Bool.and_self, beq_self_eq_true]
+    simp only [hst, h1, h2, h3, h4, h5, h6, h7, h8, hS1, hS2, hR1, hR2, hR3, sumAxis1_ok, argsortN_ok, Bool.and_self,
+      beq_self_eq_true]
 
 /-- `_infer(X)` followed by `_compute_grads(X, y_pred, gradient)` as `fit` calls them, both as written in the source, on the
     arrays built from the model's inputs (non-empty `cl`, feature indices inside the data, `L` leaves): the model's
